@@ -647,13 +647,13 @@ theorem linspaceInt_le (last m : Nat) : ∀ k ∈ linspaceInt last m, k ≤ last
       exact Nat.mul_le_mul_right last this
 
 /-- The evaluation times handed to the legacy emulator are strictly ascending (hence duplicate free). -/
-theorem legacyEvalTimes_sorted (dflt : DefaultTimes) (extras : List Rat) (T m : Nat) (hT : T ≠ 0)
+theorem legacyEvalTimesRaw_sorted (dflt : DefaultTimes) (extras : List Rat) (T m : Nat) (hT : T ≠ 0)
     (hd : ∀ l, dflt = .times l → StrictAsc l) (r : List Rat)
-    (h : legacyEvalTimes dflt extras T m = some r) : StrictAsc r := by
+    (h : legacyEvalTimesRaw dflt extras T m = some r) : StrictAsc r := by
   have hpos : (0 : Rat) < (T : Rat) / 1000 := by
     have : (0 : Rat) < T := by exact_mod_cast Nat.pos_of_ne_zero hT
     exact div_pos this (by norm_num)
-  unfold legacyEvalTimes at h
+  unfold legacyEvalTimesRaw at h
   simp only at h
   split at h
   · cases dflt with
@@ -667,10 +667,10 @@ theorem legacyEvalTimes_sorted (dflt : DefaultTimes) (extras : List Rat) (T m : 
     exact strictAsc_map_mul _ _ hpos (union1d_strictAsc _ _)
 
 /-- ... and lie within `[0, T/1000]` when all relative times are within `[0, 1]`. -/
-theorem legacyEvalTimes_bounds (dflt : DefaultTimes) (extras : List Rat) (T m : Nat) (hT : T ≠ 0)
+theorem legacyEvalTimesRaw_bounds (dflt : DefaultTimes) (extras : List Rat) (T m : Nat) (hT : T ≠ 0)
     (hd : ∀ l, dflt = .times l → ∀ x ∈ l, 0 ≤ x ∧ x ≤ 1)
     (he : ∀ x ∈ extras, 0 ≤ x ∧ x ≤ 1) (r : List Rat)
-    (h : legacyEvalTimes dflt extras T m = some r) : ∀ x ∈ r, 0 ≤ x ∧ x ≤ (T : Rat) / 1000 := by
+    (h : legacyEvalTimesRaw dflt extras T m = some r) : ∀ x ∈ r, 0 ≤ x ∧ x ≤ (T : Rat) / 1000 := by
   have hTpos : (0 : Rat) < T := by exact_mod_cast Nat.pos_of_ne_zero hT
   have hpos : (0 : Rat) < (T : Rat) / 1000 := div_pos hTpos (by norm_num)
   have scale : ∀ y : Rat, 0 ≤ y ∧ y ≤ 1 → 0 ≤ y * ((T : Rat) / 1000) ∧ y * ((T : Rat) / 1000) ≤ (T : Rat) / 1000 := by
@@ -678,7 +678,7 @@ theorem legacyEvalTimes_bounds (dflt : DefaultTimes) (extras : List Rat) (T m : 
     constructor
     · exact mul_nonneg h0 (le_of_lt hpos)
     · nlinarith
-  unfold legacyEvalTimes at h
+  unfold legacyEvalTimesRaw at h
   simp only at h
   split at h
   · cases dflt with
@@ -708,6 +708,60 @@ theorem legacyEvalTimes_bounds (dflt : DefaultTimes) (extras : List Rat) (T m : 
         · exact div_nonneg (by exact_mod_cast Nat.zero_le i) (le_of_lt hTpos)
         · rw [div_le_iff₀ hTpos]; linarith
     · exact he y hy
+
+theorem clipTo_of_le (b x : Rat) (h : x ≤ b) : clipTo b x = x := by
+  unfold clipTo; simp [h]
+
+theorem clipTo_le (b x : Rat) : clipTo b x ≤ b := by
+  unfold clipTo; split
+  · assumption
+  · exact le_refl _
+
+/-- With relative times inside `[0, 1]` the clipping (repair of F30) never changes anything over
+the rationals. -/
+theorem legacyEvalTimes_eq_raw (dflt : DefaultTimes) (extras : List Rat) (T m : Nat) (hT : T ≠ 0)
+    (hd : ∀ l, dflt = .times l → ∀ x ∈ l, 0 ≤ x ∧ x ≤ 1)
+    (he : ∀ x ∈ extras, 0 ≤ x ∧ x ≤ 1) :
+    legacyEvalTimes dflt extras T m = legacyEvalTimesRaw dflt extras T m := by
+  unfold legacyEvalTimes
+  cases h : legacyEvalTimesRaw dflt extras T m with
+  | none => rfl
+  | some l =>
+    simp only [Option.map_some, Option.some.injEq]
+    have hb := legacyEvalTimesRaw_bounds dflt extras T m hT hd he l h
+    calc l.map (clipTo ((T : Rat) / 1000)) = l.map id := by
+          apply List.map_congr_left
+          intro x hx
+          exact clipTo_of_le _ _ (hb x hx).2
+      _ = l := List.map_id l
+
+/-- Whatever the inputs, no converted time exceeds the duration. -/
+theorem legacyEvalTimes_le (dflt : DefaultTimes) (extras : List Rat) (T m : Nat) (r : List Rat)
+    (h : legacyEvalTimes dflt extras T m = some r) : ∀ x ∈ r, x ≤ (T : Rat) / 1000 := by
+  unfold legacyEvalTimes at h
+  cases hr : legacyEvalTimesRaw dflt extras T m with
+  | none => simp [hr] at h
+  | some l =>
+    simp only [hr, Option.map_some, Option.some.injEq] at h
+    subst h
+    intro x hx
+    obtain ⟨y, _, rfl⟩ := List.mem_map.mp hx
+    exact clipTo_le _ _
+
+theorem legacyEvalTimes_sorted (dflt : DefaultTimes) (extras : List Rat) (T m : Nat) (hT : T ≠ 0)
+    (hs : ∀ l, dflt = .times l → StrictAsc l)
+    (hd : ∀ l, dflt = .times l → ∀ x ∈ l, 0 ≤ x ∧ x ≤ 1)
+    (he : ∀ x ∈ extras, 0 ≤ x ∧ x ≤ 1) (r : List Rat)
+    (h : legacyEvalTimes dflt extras T m = some r) : StrictAsc r := by
+  rw [legacyEvalTimes_eq_raw dflt extras T m hT hd he] at h
+  exact legacyEvalTimesRaw_sorted dflt extras T m hT hs r h
+
+theorem legacyEvalTimes_bounds (dflt : DefaultTimes) (extras : List Rat) (T m : Nat) (hT : T ≠ 0)
+    (hd : ∀ l, dflt = .times l → ∀ x ∈ l, 0 ≤ x ∧ x ≤ 1)
+    (he : ∀ x ∈ extras, 0 ≤ x ∧ x ≤ 1) (r : List Rat)
+    (h : legacyEvalTimes dflt extras T m = some r) : ∀ x ∈ r, 0 ≤ x ∧ x ≤ (T : Rat) / 1000 := by
+  rw [legacyEvalTimes_eq_raw dflt extras T m hT hd he] at h
+  exact legacyEvalTimesRaw_bounds dflt extras T m hT hd he r h
 
 /-- `set_evaluation_times` over the rationals never rejects such a list, and returns it with the end points. -/
 theorem setEvaluationTimes_spec (T : Nat) (value : List Rat)
@@ -1290,5 +1344,69 @@ theorem occupation_re (d n one i : Nat) (hi : i < n) (rho : Mat) (hr : rho.r = d
   have hlt := index_lt d σ (allStates_digits d n σ hσ')
   rw [allStates_length d n σ hσ'] at hlt
   rw [lookup_probsDM rho _ (by rw [hr]; exact hlt)]
+
+/-! ### 10. energy second moment and variance (after the repair of F25/F26) -/
+
+theorem sumTo_delta (n k : Nat) (hk : k < n) (g : Nat → CQ) :
+    sumTo n (fun j => (if k = j then (1 : CQ) else 0) * g j) = g k := by
+  induction n with
+  | zero => omega
+  | succ n ih =>
+    simp only [sumTo]
+    by_cases e : k = n
+    · subst e
+      have : sumTo k (fun j => (if k = j then (1 : CQ) else 0) * g j) = sumTo k (fun _ => 0) := by
+        apply sumTo_congr
+        intro j hj
+        have : k ≠ j := by omega
+        simp [this]
+      rw [this, sumTo_zero]; simp
+    · have hk' : k < n := by omega
+      rw [ih hk']; simp [e]
+
+/-- **The second moment stored by the tree is its definition** `Tr[ρ H²]`, for every state
+(pure or mixed) and every Hermitian `H`: `identity.expect(H ρ H†) = Tr[H ρ H] = Tr[ρ H H]`. -/
+theorem secondMomentCode_eq_def (H rho : Mat) (n : Nat) (hHr : H.r = n) (hHc : H.c = n)
+    (hRc : rho.c = n) (herm : IsHermitian H n) :
+    secondMomentCodeDM H rho = secondMomentDM H rho := by
+  simp only [secondMomentCodeDM, secondMomentDM, expectDM, Mat.trace, Mat.mul, Mat.ident, applyDM,
+    Mat.dagger, hHr, hHc, hRc]
+  -- left: Σ_k Σ_j δ_kj Σ_b (Σ_a H j a ρ a b) conj(H k b)
+  have e1 : ∀ k, k < n →
+      (sumTo n fun j => (if k = j then (1 : CQ) else 0) *
+        sumTo n fun b => (sumTo n fun a => H.f j a * rho.f a b) * (H.f k b).conj)
+      = sumTo n fun b => sumTo n fun a => H.f k a * rho.f a b * H.f b k := by
+    intro k hk
+    rw [sumTo_delta n k hk]
+    apply sumTo_congr
+    intro b hb
+    rw [herm b k hb hk, sumTo_mul_right]
+  rw [sumTo_congr n _ _ e1]
+  -- right: Σ_k Σ_j (Σ_a H k a H a j) ρ j k
+  have e2 : ∀ k, k < n →
+      (sumTo n fun j => (sumTo n fun a => H.f k a * H.f a j) * rho.f j k)
+      = sumTo n fun j => sumTo n fun a => H.f k a * H.f a j * rho.f j k := by
+    intro k _
+    apply sumTo_congr
+    intro j _
+    rw [sumTo_mul_right]
+  rw [sumTo_congr n (fun k => sumTo n fun j => (sumTo n fun a => H.f k a * H.f a j) * rho.f j k) _ e2]
+  -- Σ_k Σ_b Σ_a f k a b  with f k a b = H k a ρ a b H b k ;  right = Σ_b' Σ_a' Σ_k' f k' a' b' after renaming
+  rw [sumTo_swap n n (fun k b => sumTo n fun a => H.f k a * rho.f a b * H.f b k)]
+  apply sumTo_congr
+  intro b _
+  rw [sumTo_swap n n (fun k a => H.f k a * rho.f a b * H.f b k)]
+  apply sumTo_congr
+  intro a _
+  apply sumTo_congr
+  intro k _
+  ring
+
+/-- ... and so is the variance. -/
+theorem varianceCode_eq_def (H rho : Mat) (n : Nat) (hHr : H.r = n) (hHc : H.c = n)
+    (hRc : rho.c = n) (herm : IsHermitian H n) :
+    varianceCodeDM H rho = varianceDM H rho := by
+  unfold varianceCodeDM varianceDM
+  rw [secondMomentCode_eq_def H rho n hHr hHc hRc herm]
 
 end Pulser.Measure
